@@ -536,11 +536,14 @@ class Constructs(mixin.Container, core.Constructs):
         key1_to_key0=None,
     ):
         """Whether two domain axes constructs are the same."""
+        # A domain axis construct whose size has not been set is
+        # counted with size -1, so that it can only correspond to
+        # another domain axis construct whose size has not been set.
         domain_axes = self._construct_dict("domain_axis")
-        self_sizes = sorted([d.get_size() for d in domain_axes.values()])
+        self_sizes = sorted([d.get_size(-1) for d in domain_axes.values()])
 
         domain_axes = other._construct_dict("domain_axis")
-        other_sizes = sorted([d.get_size() for d in domain_axes.values()])
+        other_sizes = sorted([d.get_size(-1) for d in domain_axes.values()])
 
         if self_sizes != other_sizes:
             # There is not a 1-1 correspondence between axis sizes
